@@ -2010,11 +2010,17 @@ dt_dcmp(struct dt_d_s d1, struct dt_d_s d2)
 	case DT_DUNK:
 	default:
 		return -2;
+	case DT_JDN:
+		/* day numbers with fractions */
+		return d1.jdn < d2.jdn ? -1 : d1.jdn > d2.jdn ? 1 : 0;
 	case DT_YMD:
 	case DT_DAISY:
+	case DT_LDN:
+	case DT_MDN:
 	case DT_BIZDA:
 	case DT_YWD:
 	case DT_YD:
+	case DT_UMMULQURA:
 		/* use arithmetic comparison */
 		if (d1.u == d2.u) {
 			return 0;
